@@ -55,7 +55,9 @@ HasDollar(s) == \E i \in 1..Len(s) : s[i] = "$"
 NoExprOpen(s) == \A i \in 1..(Len(s) - 1) : ~(s[i] = "{" /\ s[i + 1] = "{")
 Strs == UNION {[1..k -> Sigma] : k \in 1..MaxLen}
 \* where the reference is written and what defines the names
-Carriers == {"var", "g-attrs", "reuse-attrs", "nested-shadow"}
+\* ("var+defaults": a <defaults> rule for any element carries attributes named like UNDEFINED
+\* names - defaults are for elements that are drawn, they define no variables)
+Carriers == {"var", "g-attrs", "reuse-attrs", "nested-shadow", "var+defaults"}
 Cases == {[fam |-> "varref", s |-> s, out |-> Expand(s), carrier |-> car] : s \in {x \in Strs : HasDollar(x) /\ NoExprOpen(x)}, car \in Carriers}
 
 Init == c \in Cases
